@@ -69,8 +69,16 @@ VARIABLES cfg,   \* [lmtp, defer, nt, shape, partial]   fixed per behaviour
 
 vars == <<cfg, m, nf, ncmd, obs, hist>>
 View == <<cfg, [m EXCEPT !.devs = {}], nf, ncmd, obs>>
-\* behaviour generation by terminal-state enumeration: one (shortest) behaviour per distinct final state
-GenView == <<cfg, m, nf, ncmd, obs>>
+\* behaviour generation by terminal-state enumeration: one (shortest) behaviour per distinct
+\* (final state, set of event kinds on the way): which commands with which arguments, which reply
+\* classes to which command, which target calls with which results
+Kind(e) == CASE e.a = "Cmd" -> <<"C", e.v, e.arg>>
+             [] e.a = "Tgt" -> <<"T", e.tgt, e.op,
+                                 IF e.op = "bodyNA" THEN \A r \in DOMAIN e.st : e.st[r] = "ok" ELSE e.res = "ok">>
+             [] OTHER       -> IF e.v \in {"DATA", "BDAT"} THEN <<"R", e.v, e.cls>> ELSE <<"R">>
+GenView == <<cfg, m, nf, ncmd, obs, {Kind(hist[i]) : i \in 1..Len(hist)}>>
+\* coarser: one behaviour per distinct final state
+GenViewPlain == <<cfg, m, nf, ncmd, obs>>
 
 TName == <<"T1", "T2", "T3">>
 Targets(c) == {TName[i] : i \in 1..c.nt}
@@ -96,8 +104,10 @@ Cfgs == {c \in [lmtp : BOOLEAN, defer : BOOLEAN, nt : NTs, shape : {"split", "fa
 Res == {"ok"} \cup Fails
 CodeOf(res) == IF res = "temp" THEN 451 ELSE 550
 
-(* sender argument classes: "" none/null, "ok" s@src.example, "up" s@SRC.EXAMPLE,
-   "rej" s@rej.example (refused by a sender-stage check), "syn" syntax error *)
+(* sender argument classes: "null" <>, "ok" s@src.example, "up" s@SRC.EXAMPLE,
+   "rej" s@rej.example (refused by a sender-stage check), "syn" syntax error;
+   values of Session.mailFrom: "" (none / null sender), "ok", "up", "rej" *)
+ArgMf(a) == IF a = "null" THEN "" ELSE a
 CleanMf(x) == IF x = "up" THEN "ok" ELSE x
 Dom(x) == CASE x = "ok" -> "src" [] x = "up" -> "SRC" [] x = "rej" -> "rej" [] OTHER -> ""
 Keys == {"", "src", "rej"}
@@ -190,7 +200,7 @@ AbortClean(x) == IF x.d THEN <<Abort(Open(x)), St("clean")>> ELSE <<>>
 RcptArgs == {[v |-> "RCPT", a |-> k, r |-> r] : k \in {"ok", "up"}, r \in Rcpts}
             \cup {[v |-> "RCPT", a |-> k, r |-> ""] : k \in {"rej", "syn"}}
 Cmds == {[v |-> "HELO", a |-> "", r |-> ""]}
-        \cup {[v |-> "MAIL", a |-> k, r |-> ""] : k \in {"ok", "up", "rej", "syn"}}
+        \cup {[v |-> "MAIL", a |-> k, r |-> ""] : k \in {"ok", "up", "rej", "syn", "null"}}
         \cup RcptArgs
         \cup {[v |-> "DATA", a |-> k, r |-> ""] : k \in {"ok", "loop", "hdr", "chk", "cut"}}
         \cup {[v |-> "BDAT", a |-> k, r |-> ""] : k \in {"more", "last"}}
@@ -309,7 +319,7 @@ Drop(x) == WithStk(x, AbortClean(x) \o <<St("close")>>)
 
 Exec(x, c) ==
   CASE c.v = "HELO" -> Helo(x)
-    [] c.v = "MAIL" -> Mail(x, c.a)
+    [] c.v = "MAIL" -> IF c.a = "syn" THEN Mail(x, "syn") ELSE Mail(x, ArgMf(c.a))
     [] c.v = "RCPT" -> Rcpt(x, c)
     [] c.v = "DATA" -> Data(x, c.a)
     [] c.v = "BDAT" -> Bdat(x, c.a)
@@ -351,7 +361,8 @@ ReplyStep(code) ==
   /\ SameKind(code, Head(m.stk).code)
   /\ m' = WithStk(m, Tail(m.stk))
   /\ obs' = ObsReply(obs, code)
-  /\ UNCHANGED <<cfg, nf, ncmd, hist>>
+  /\ hist' = H([a |-> "Reply", v |-> obs.cmd.v, cls |-> code \div 100])
+  /\ UNCHANGED <<cfg, nf, ncmd>>
 
 \* LMTP: the reply of recipient i is written as soon as its status is known - concurrently
 \* with the rest of LMTPData (as-is); the design reports statuses only after Commit
@@ -366,7 +377,8 @@ LmReplyStep(code) ==
        /\ "LmtpCommitErrLost" \in Devs \/ ~CommitPending
   /\ m' = Norm([m EXCEPT !.lm.sent = @ + 1])
   /\ obs' = ObsReply(obs, code)
-  /\ UNCHANGED <<cfg, nf, ncmd, hist>>
+  /\ hist' = H([a |-> "Reply", v |-> obs.cmd.v, cls |-> code \div 100])
+  /\ UNCHANGED <<cfg, nf, ncmd>>
 
 (***************************************************************************)
 (* Target calls                                                            *)
